@@ -40,7 +40,7 @@ Theorem c15_count_inv : forall k s,
   reachable k s ->
   forall i,
     match tlookup i (tbl s) with
-    | Some a => exists o, nth_error (heap s) a = Some o
+    | Some a => exists o, hget a (heap s) = Some o
                           /\ ln o = count (is_holder i) s + count (is_waiter i) s + count (is_canceller i) s
                           /\ 1 <= ln o
     | None => count (is_holder i) s = 0 /\ count (is_waiter i) s = 0 /\ count (is_canceller i) s = 0
@@ -61,7 +61,7 @@ Print Assumptions c15_waiter_pointer_current.
 (** The channel holds a token exactly when the (existing) entry has no holder; never two. *)
 Theorem c15_token_xor_holder : forall k s,
   reachable k s ->
-  forall i a o, tlookup i (tbl s) = Some a -> nth_error (heap s) a = Some o ->
+  forall i a o, tlookup i (tbl s) = Some a -> hget a (heap s) = Some o ->
     (ltok o = 0 /\ count (is_holder i) s = 1) \/ (ltok o = 1 /\ count (is_holder i) s = 0).
 Proof. exact token_xor_holder. Qed.
 Print Assumptions c15_token_xor_holder.
